@@ -5,7 +5,8 @@ crate=sys.argv[1]; pat=sys.argv[2]
 src=open('/verif/contracts/kani/%s/%s' % ('geo_types' if crate=='geo-types' else 'geo', sys.argv[3])).read()
 names=re.findall(r'k_harness\d*!\((\w+),', src)+re.findall(r'#\[kani::proof[^\]]*\]\s*(?:#\[[^\]]*\]\s*)*fn (\w+)', src)
 names=[n for n in dict.fromkeys(names) if re.search(pat,n)]
-res,meta=kani_run.run(crate,names,srcfiles={n: sys.argv[3] for n in names},jobs=int(sys.argv[4]) if len(sys.argv)>4 else 8, harness_timeout=int(sys.argv[5]) if len(sys.argv)>5 else 120)
+import os
+res,meta=kani_run.run(crate,names,srcfiles={n: sys.argv[3] for n in names},extra=os.environ.get('KEXTRA','').split() or None,jobs=int(sys.argv[4]) if len(sys.argv)>4 else 8, harness_timeout=int(sys.argv[5]) if len(sys.argv)>5 else 120)
 print(meta['wall_s'], meta['compile_error'])
 for n,r in res.items(): print('%-45s %-8s %6.1fs checks=%s covers=%s %s' % (n, r['status'], r['time_s'], r['checks'], r['covers'], [c['desc'][:60] for c in r['failed_checks']]))
 if meta['compile_error']: print(meta['raw_tail'])
